@@ -14,13 +14,26 @@
 // Every return value, size(), count(), empty() is compared; every history ends in a drain by
 // evict_object compared with the model.  ASan watches for use-after-free / double free, LSan at exit.
 //
-// Parts (--arg only=...):  exset / exmap  exhaustive histories, full alphabet (int keys)
+// Parts (--arg only=<part>[,<part>...]; scopes: full_len= map_len= big_len= red_len=, random_div=<n> divides the
+// number of random histories):
+//                          exset / exmap  exhaustive histories, full alphabet (int keys)
 //                          redset / redmap exhaustive histories, reduced 18-op alphabet, longer
 //                          random         random histories <= 400 ops over 1..8 heap-owning string keys
 //                          fixed          a few scripted cases (default size arguments etc.)
 //                          bigsz          exhaustive length <= 3 over every size-taking entry point x boundary sizes of size_t
 // Not instantiated (do not compile, see notes/c12.md): LRUMap::insert(const K&, const V&, size_t),
 // LRUMap::at(const K&) const.
+//
+// Build configurations (round 5).  LRUSet/LRUMap are header-only templates: they are compiled with the flags
+// of the INCLUDING translation unit, so the property has to hold in every configuration a user may pick.  The
+// spec therefore compiles this same TU several times (stage key "extra_cxx": NDEBUG defined / not defined,
+// -O0 / -O2 / -O3, with and without sanitizer instrumentation) and runs the same histories, the same model
+// and the same audit from each binary.  Nothing in this file (or common.hh) uses assert(): every judgement
+// goes through c.violation, so the oracle is identical in all configurations.  The configuration a binary
+// was REALLY compiled in is observed below (preprocessor state + a run-time probe of the assert macro) and
+// reported as coverage class `build:<assert-on|assert-off>:<O-level>:<asan|nosan>`; the spec requires every
+// configuration, so a build system that dropped the flags makes the check inconclusive, not "held".
+#include <assert.h>
 #include <inttypes.h>
 #include <stdint.h>
 #include <stdio.h>
@@ -42,6 +55,59 @@ using std::string;
 using vf::fmt;
 
 static vf::Ctx* C;
+
+// ------------------------------------------------------------------------------------------------
+// build configuration of this binary (= of the phosg templates instantiated in it)
+
+#define C12_STR2(x) #x
+#define C12_STR(x) C12_STR2(x)
+#ifdef NDEBUG
+static const bool cfg_ndebug = true;
+#else
+static const bool cfg_ndebug = false;
+#endif
+#ifdef __OPTIMIZE__
+static const bool cfg_optimized = true;
+#else
+static const bool cfg_optimized = false;
+#endif
+#if defined(__SANITIZE_ADDRESS__)
+static const bool cfg_asan = true;
+#else
+static const bool cfg_asan = false;
+#endif
+#ifdef C12_OPT  // label given by the spec next to the -O flag itself (the compiler has no macro for the exact level)
+static const char* const cfg_opt_label = C12_STR(C12_OPT);
+#else
+static const char* const cfg_opt_label = "";
+#endif
+static string cfg_name;    // e.g. "assert-off:O2:asan"
+static string key_prefix;  // "" when asserts are active, "ndebug:" when NDEBUG is defined
+
+// Observes (does not judge) whether an expression inside assert() is evaluated in this binary.
+__attribute__((noinline)) static bool assert_side_effects_run() {
+  volatile int probe = 0;
+  assert((probe = 1) == 1);
+  return probe == 1;
+}
+
+static void detect_build_config() {
+  bool active = assert_side_effects_run();
+  if (active == cfg_ndebug) {
+    fprintf(stderr, "[harness-error] NDEBUG %s but the argument of assert() %s evaluated\n", cfg_ndebug ? "defined" : "not defined",
+        active ? "is" : "is not");
+    exit(3);
+  }
+  string opt = cfg_opt_label;
+  if (opt.empty()) opt = cfg_optimized ? "O1+" : "O0";
+  if ((opt == "O0") == cfg_optimized) {
+    fprintf(stderr, "[harness-error] build labelled %s but __OPTIMIZE__ is %s: the -O flag of the stage did not reach the compiler\n",
+        opt.c_str(), cfg_optimized ? "defined" : "not defined");
+    exit(3);
+  }
+  cfg_name = fmt("%s:%s:%s", cfg_ndebug ? "assert-off" : "assert-on", opt.c_str(), cfg_asan ? "asan" : "nosan");
+  key_prefix = cfg_ndebug ? "ndebug:" : "";
+}
 
 // ------------------------------------------------------------------------------------------------
 // operations
@@ -795,6 +861,7 @@ static void report(const Op* ops, size_t n, HistResult hr, const string& origin,
     key = fmt("%s:%s:%s:%s", cont_name[R::CONT], kind_name[best.kind], shape_name[best.shape], best.f.aspect.c_str());
   else
     key = fmt("%s:final-drain:%s", cont_name[R::CONT], best.f.aspect.c_str());
+  key = key_prefix + key;  // "ndebug:" = observed in a binary compiled with NDEBUG defined
   {
     auto it = C->viol_counts.find(key);
     if (it != C->viol_counts.end() && it->second >= 5) {  // enough witnesses stored for this class
@@ -805,8 +872,9 @@ static void report(const Op* ops, size_t n, HistResult hr, const string& origin,
   string where = best.fail_step < cur.size() ? fmt("at op #%zu %s", best.fail_step + 1, op_str(cur[best.fail_step]).c_str())
                                              : string("in the final drain");
   C->violation(key, best.f.what,
-      fmt("%s<%s> history (two fresh instances a,b; ops act on a): %s  -- fails %s  [found by %s, %s %zu ops]",
-          cont_name[R::CONT], R::CONT == 0 ? "K" : "K,V", hist_str(cur.data(), cur.size()).c_str(), where.c_str(), origin.c_str(), minimize ? "minimized from" : "prefix of", n));
+      fmt("%s<%s> history (two fresh instances a,b; ops act on a): %s  -- fails %s  [found by %s, %s %zu ops; harness TU compiled %s]",
+          cont_name[R::CONT], R::CONT == 0 ? "K" : "K,V", hist_str(cur.data(), cur.size()).c_str(), where.c_str(), origin.c_str(), minimize ? "minimized from" : "prefix of", n,
+          cfg_name.c_str()));
 }
 
 template <class R>
@@ -1105,8 +1173,20 @@ static void fixed_part(const char* part) {
 int main(int argc, char** argv) {
   vf::Ctx& c = vf::init(argc, argv);
   C = &c;
+  detect_build_config();
+  // only=<part>[,<part>...]
   string only = c.arg("only");
-  auto want = [&](const char* s) { return only.empty() || only == s; };
+  auto want = [&](const char* s) {
+    if (only.empty()) return true;
+    size_t n = strlen(s);
+    for (size_t p = 0; p <= only.size();) {
+      size_t e = only.find(',', p);
+      if (e == string::npos) e = only.size();
+      if (e - p == n && only.compare(p, n, s) == 0) return true;
+      p = e + 1;
+    }
+    return false;
+  };
 
   typedef SetRunner<int> SetI;
   typedef MapRunner<int, int64_t> MapI;
@@ -1116,6 +1196,13 @@ int main(int argc, char** argv) {
 
   int full_len = (int)strtol(c.arg("full_len", c.quick() ? "4" : "5").c_str(), nullptr, 10);
   int red_len = (int)strtol(c.arg("red_len", "7").c_str(), nullptr, 10);
+  int map_len = (int)strtol(c.arg("map_len", "4").c_str(), nullptr, 10);
+  int big_len = (int)strtol(c.arg("big_len", "3").c_str(), nullptr, 10);
+  uint64_t random_div = strtoull(c.arg("random_div", "1").c_str(), nullptr, 10);
+  if (full_len < 1 || map_len < 1 || big_len < 1 || random_div < 1) {
+    fprintf(stderr, "[harness-error] bad full_len/map_len/big_len/random_div\n");
+    exit(3);
+  }
 
   if (want("fixed")) {
     fixed_part<SetS>("fixed-set");
@@ -1132,7 +1219,7 @@ int main(int argc, char** argv) {
     // LRUMap: every history of length 1..4 over the full alphabet (both tiers)
     auto al = alphabet(1, false);
     c.count("alphabet_map_full", c.shard == 0 ? al.size() : 0);
-    exhaustive<MapI>("exmap", al, 4);
+    exhaustive<MapI>("exmap", al, map_len);
   }
   if (want("exmap5") && (c.thorough() || only == "exmap5")) {
     // LRUMap, length 5 over the full alphabet, stutter-free histories only (60^5 is out of budget)
@@ -1154,13 +1241,13 @@ int main(int argc, char** argv) {
     auto as = alphabet_big(0), am = alphabet_big(1);
     c.count("alphabet_set_bigsize", c.shard == 0 ? as.size() : 0);
     c.count("alphabet_map_bigsize", c.shard == 0 ? am.size() : 0);
-    exhaustive<SetI>("bigset", as, 3);
-    exhaustive<MapI>("bigmap", am, 3);
+    exhaustive<SetI>("bigset", as, big_len);
+    exhaustive<MapI>("bigmap", am, big_len);
   }
   if (want("closet")) closure<SetI>("closure-set", alphabet(0, false));
   if (want("closmap")) closure<MapI>("closure-map", alphabet(1, false));
   if (want("random")) {
-    uint64_t nh = c.qt<uint64_t>(24000, 480000) / c.nshards + 1;
+    uint64_t nh = c.qt<uint64_t>(24000, 480000) / random_div / c.nshards + 1;
     random_part<SetS>("random-set-string", 0, nh);
     random_part<MapS>("random-map-string-string", 1, nh);
     random_part<MapU>("random-map-string-uniqueptr", 2, nh);
@@ -1178,9 +1265,23 @@ int main(int argc, char** argv) {
     for (int d = 0; d < 3; d++)
       if (drain_count[ct][d]) c.cls(fmt("%s:final-drain:%s", cont_name[ct], dn[d]), drain_count[ct][d]);
   }
+  // what this build configuration executed: histories, and every operation kind per container
+  c.cls("build:" + cfg_name, n_histories);
+  for (int ct = 0; ct < 2; ct++) {
+    for (int k = 0; k < K_NKINDS; k++) {
+      uint64_t t = 0;
+      for (int s = 0; s < S_NSHAPES; s++) t += cls_count[ct][k][s];
+      if (t) c.cls(fmt("build:%s:%s:%s", cfg_name.c_str(), cont_name[ct], kind_name[k]), t);
+    }
+    uint64_t d = drain_count[ct][0] + drain_count[ct][1] + drain_count[ct][2];
+    if (d) c.cls(fmt("build:%s:%s:final-drain", cfg_name.c_str(), cont_name[ct]), d);
+  }
   c.count("histories", n_histories);
+  c.count("histories_" + cfg_name, n_histories);
   c.count("expected_throws_observed", n_throw_expected);
   if (c.shard == 0) {
+    c.sample(fmt("build configuration of this stage's binary: %s (NDEBUG %s, assert() argument %s evaluated)", cfg_name.c_str(),
+        cfg_ndebug ? "defined" : "not defined", cfg_ndebug ? "not" : "is"));
     c.sample("exhaustive: every history of length 1..L over {insert,emplace,touch_sz,change_size}(k0..k2,size 0..2), erase/touch(k), evict, peek, swap(a,b), clear from two fresh instances; audit after every op, drain at the end");
     c.sample("e.g. lruset: insert(k0,1) emplace(k1,2) touch(k0) erase(k1) swap evict  -> drain");
   }
